@@ -154,6 +154,7 @@ Fixpoint isize2 (i : item2) : nat :=
   | Brk2 _ _ _ b _ => S (fold_right (fun i n => isize2 i + n) 0 b)
   | Abs2 => 1
   | Vba2 _ _ _ _ => 1
+  | Pre2 _ _ _ a => S (isize2 a)
   end.
 Definition lsize2 (l : list item2) := fold_right (fun i n => isize2 i + n) 0 l.
 Lemma isize_pos2 i : 1 <= isize2 i. Proof. destruct i; cbn; lia. Qed.
@@ -619,6 +620,180 @@ Section Sim.
   Lemma absent_no_err pos ch r : absent_tok pos ch r -> forall e, r <> TokErr e.
   Proof. destruct r; cbn; [discriminate|discriminate|contradiction]. Qed.
 
+  Lemma ilen_pre2 ws text post a :
+    ilen2 (Pre2 ws text post a) = length ws + 1 + length text + length post + ilen2 a.
+  Proof. unfold ilen2. cbn [unparse_item2]. rewrite app_length. cbn [length]. rewrite !app_length. lia. Qed.
+
+  Lemma ok_expr_len sp aps a fa : ok_expr2 cx sp aps a fa = true -> 1 <= ilen2 a.
+  Proof.
+    destruct a as [ws cs|ws b tr|ws name post margs| | | | |ws chars sargs| | | | | |ws text post a'];
+      cbn [ok_expr2]; try discriminate; intros H.
+    - destruct cs as [|c [|? ?]]; try discriminate H. unfold ilen2. cbn [unparse_item2]. rewrite app_length. cbn. lia.
+    - rewrite ilen_grp2. lia.
+    - rewrite ilen_mac2. lia.
+    - destruct chars; [discriminate H|]. rewrite ilen_spc2. cbn [length]. lia.
+    - rewrite ilen_pre2. lia.
+  Qed.
+
+  (** ** a mandatory argument: the expression parser, whatever it has skipped so far *)
+  Lemma expr_run2 n : SimN2 n -> forall a sp aps acc pa fa,
+    Std cx aps -> isize2 a <= S n -> ok_expr2 cx sp aps a fa = true ->
+    skipn pa s = unparse_item2 a ++ fa ->
+    R (8 * ilen2 a - 1) (TExpr aps sp sp false true acc pa) = Ok (ONode (expr_node2 cx aps pa a)) (pa + ilen2 a)
+    /\ (forall q, Std cx q -> forall e, impl_peek q s pa <> TokErr e).
+  Proof.
+    intros IH a.
+    induction a as [ws cs|ws b tr|ws name post margs| | | | |ws chars sargs| | | | | |ws text post a' IHa];
+      intros sp aps acc pa fa SDa SZ OKA SK; cbn [ok_expr2] in OKA; try discriminate OKA;
+      pose proof (std_no_envs cx aps SDa) as SDe.
+    - (* a single character *)
+      destruct cs as [|c [|? ?]]; try discriminate.
+      apply andb_true_iff in OKA. destruct OKA as [OKA IN].
+      apply andb_true_iff in OKA. destruct OKA as [AP WA].
+      destruct (inert_facts cx c IN) as (SPC & C92 & _).
+      cbn [unparse_item2] in SK. rewrite <- app_assoc in SK. cbn [app] in SK.
+      split; [|intros q SQ; apply (peek_no_err q pa ws c _ SQ WA SPC C92 SK)].
+      assert (TP : forall pre pp, ws_ok pre = true -> skipn pp s = pre ++ c :: fa ->
+                   impl_peek (sub_context aps [UEnEnvs false]) s pp
+                   = TokOk (mk TkChar [c] (pp + length pre) (S (pp + length pre)) pre [])).
+      { intros pre pp WP SKp. rewrite (impl_peek_dispatch _ s pp pre c fa WP SKp SPC).
+        apply (dispatch_char cx _ (std_view_of cx _ SDe)). exact IN. }
+      cbn [expr_node2 item_ws2]. unfold ilen2. cbn [unparse_item2]. rewrite app_length. cbn [length].
+      replace (pa + length ws + 1) with (S (pa + length ws)) by lia.
+      replace (pa + (length ws + 1)) with (S (pa + length ws)) by lia.
+      destruct ws as [|w ws'].
+      + pose proof (TP [] pa eq_refl SK) as T. cbn [length] in T |- *. rewrite Nat.add_0_r in T |- *.
+        apply (rule_texpr_char s cx 6 aps sp sp true acc pa c T).
+      + cbn [is_nil] in AP. rewrite orb_false_r in AP. subst sp.
+        pose proof (TP (w :: ws') pa WA SK) as T1.
+        pose proof (TP [] (pa + length (w :: ws')) eq_refl (skipn_shift _ _ _ _ SK)) as T2.
+        cbn [length] in T2. rewrite Nat.add_0_r in T2.
+        replace (8 * (length (w :: ws') + 1) - 1) with (S (S (8 * (length (w :: ws') + 1) - 3))) by (cbn [length]; lia).
+        rewrite (rule_texpr_skipws s cx _ aps true true acc pa TkChar [c] _ w ws' [] (or_intror (or_introl eq_refl)) T1).
+        apply (rule_texpr_char s cx _ aps true true true _ _ c T2).
+    - (* a braced group *)
+      apply andb_true_iff in OKA. destruct OKA as [AP OKI].
+      rewrite ok_item_grp2 in OKI. apply andb_true_iff in OKI. destruct OKI as [OKI OKB].
+      apply andb_true_iff in OKI. destruct OKI as [WA W].
+      cbn [isize2] in SZ. fold (lsize2 b) in SZ.
+      assert (SK' : skipn pa s = ws ++ 123%N :: unparse_items2 b ++ tr ++ 125%N :: fa).
+      { unfold unparse_items2. cbn [unparse_item2] in SK. rewrite <- !app_assoc in SK. cbn [app] in SK.
+        rewrite <- !app_assoc in SK. exact SK. }
+      split; [|intros q SQ; apply (peek_no_err q pa ws 123%N _ SQ WA space_123 eq_refl SK')].
+      set (q0 := pa + length ws).
+      pose proof (skipn_shift _ _ _ _ SK') as SK0. fold q0 in SK0.
+      pose proof (grp_run2 n IH aps q0 ws b tr fa SDa ltac:(lia) W OKB SK0) as G.
+      assert (TP : forall pre pp, ws_ok pre = true -> skipn pp s = pre ++ 123%N :: unparse_items2 b ++ tr ++ 125%N :: fa ->
+                   impl_peek (sub_context aps [UEnEnvs false]) s pp
+                   = TokOk (mk TkBraceOpen [123%N] (pp + length pre) (S (pp + length pre)) pre [])).
+      { intros pre pp WP SKp. rewrite (impl_peek_dispatch _ s pp pre 123%N _ WP SKp space_123).
+        apply (dispatch_open cx _ (std_view_of cx _ SDe)). }
+      cbn [expr_node2 item_ws2]. fold q0.
+      replace (pa + ilen2 (Grp2 ws b tr)) with (q0 + 1 + length (unparse_items2 b) + length tr + 1)
+        by (rewrite ilen_grp2; unfold q0; lia).
+      rewrite ilen_grp2.
+      pose proof (TP [] q0 eq_refl SK0) as T2. cbn [length] in T2. rewrite Nat.add_0_r in T2.
+      destruct ws as [|w ws'].
+      + unfold q0 in *. cbn [length] in *. rewrite Nat.add_0_r in *.
+        replace (8 * (0 + 1 + length (unparse_items2 b) + length tr + 1) - 1)
+          with (S (8 * (0 + 1 + length (unparse_items2 b) + length tr + 1) - 2)) by lia.
+        apply (rule_texpr_grpA s cx _ aps sp sp true acc pa _ _ T2).
+        apply (lift _ _ _ _ G); [discriminate|lia].
+      + cbn [is_nil] in AP. rewrite orb_false_r in AP. subst sp.
+        pose proof (TP (w :: ws') pa WA SK') as T1. fold q0 in T1.
+        replace (8 * (length (w :: ws') + 1 + length (unparse_items2 b) + length tr + 1) - 1)
+          with (S (S (8 * (length (w :: ws') + 1 + length (unparse_items2 b) + length tr + 1) - 3))) by (cbn [length]; lia).
+        rewrite (rule_texpr_skipws s cx _ aps true true acc pa TkBraceOpen [123%N] _ w ws' [] (or_introl eq_refl) T1).
+        fold q0. apply (rule_texpr_grpA s cx _ aps true true true _ q0 _ _ T2).
+        apply (lift _ _ _ _ G); [discriminate|cbn [length]; lia].
+    - (* a control sequence *)
+      destruct margs; try discriminate.
+      apply andb_true_iff in OKA. destruct OKA as [OKA FO].
+      apply andb_true_iff in OKA. destruct OKA as [OKA GS].
+      apply andb_true_iff in OKA. destruct OKA as [OKA NM].
+      apply andb_true_iff in OKA. destruct OKA as [WA Wp].
+      destruct (get_macro_spec cx name) as [msp|] eqn:GM; [|discriminate].
+      destruct (name_ok_not_env name post NM) as [NB NE].
+      assert (SK' : skipn pa s = ws ++ 92%N :: name ++ post ++ fa).
+      { cbn [unparse_item2 flat_map] in SK. rewrite app_nil_r in SK. rewrite <- !app_assoc in SK. cbn [app] in SK.
+        rewrite <- !app_assoc in SK. exact SK. }
+      split; [|intros q SQ e; rewrite (mac_tok2 q pa ws name post fa SQ WA Wp NM FO SK'); discriminate].
+      pose proof (mac_tok2 _ pa ws name post fa SDe WA Wp NM FO SK') as T.
+      assert (NL : 1 <= length name) by (destruct name; [discriminate|cbn; lia]).
+      cbn [expr_node2 item_ws2]. rewrite ilen_mac2. cbn [unparse_items2 flat_map length].
+      replace (8 * (length ws + 1 + length name + length post + 0) - 1)
+        with (S (8 * (length ws + 1 + length name + length post + 0) - 2)) by lia.
+      rewrite (rule_texpr_macroA s cx _ aps sp sp true acc pa name _ _ ws post msp T NB NE GM).
+      f_equal. lia.
+    - (* a specials sequence *)
+      destruct chars as [|c cr]; try discriminate. destruct sargs; try discriminate.
+      apply andb_true_iff in OKA. destruct OKA as [OKA TS].
+      apply andb_true_iff in OKA. destruct OKA as [WA PS].
+      destruct (test_specials (map fst (cx_specials cx)) ((c :: cr) ++ fa) None) as [sc|] eqn:TS'; [|discriminate].
+      apply pe_str_eqb_eq in TS. subst sc.
+      destruct (plain_start_facts c PS) as (SPC & C92 & _).
+      assert (SK' : skipn pa s = ws ++ c :: cr ++ fa).
+      { cbn [unparse_item2 flat_map] in SK. rewrite app_nil_r in SK. rewrite <- !app_assoc in SK. exact SK. }
+      split; [|intros q SQ; apply (peek_no_err q pa ws c _ SQ WA SPC C92 SK')].
+      assert (T : impl_peek (sub_context aps [UEnEnvs false]) s pa
+                  = TokOk (mk TkSpecials (c :: cr) (pa + length ws) (pa + length ws + length (c :: cr)) ws [])).
+      { rewrite (impl_peek_dispatch _ s pa ws c (cr ++ fa) WA SK' SPC).
+        apply (dispatch_specials cx _ (std_view_of cx _ SDe) s _ ws c cr fa PS TS'). }
+      cbn [expr_node2 item_ws2]. rewrite ilen_spc2. cbn [unparse_items2 flat_map].
+      replace (8 * (length ws + length (c :: cr) + length (@nil N)) - 1)
+        with (S (8 * (length ws + length (c :: cr) + length (@nil N)) - 2)) by (cbn [length]; lia).
+      rewrite (rule_texpr_spcA s cx _ aps sp sp true acc pa (c :: cr) _ _ ws T).
+      f_equal. cbn [length]. lia.
+    - (* a comment in front of the argument *)
+      apply andb_true_iff in OKA. destruct OKA as [OKA OKR].
+      apply andb_true_iff in OKA. destruct OKA as [OKA FO]. apply negb_true_iff in FO.
+      apply andb_true_iff in OKA. destruct OKA as [OKA NLs].
+      apply andb_true_iff in OKA. destruct OKA as [OKA Wp].
+      apply andb_true_iff in OKA. destruct OKA as [OKA NT]. apply negb_true_iff in NT.
+      apply andb_true_iff in OKA. destruct OKA as [SP WA]. subst sp.
+      assert (EW : exists w, post = 10%N :: w).
+      { destruct post as [|c w]; [discriminate|]. destruct c as [|q]; try discriminate.
+        repeat (destruct q as [q|q|]; try discriminate). exists w. reflexivity. }
+      cbn [isize2] in SZ.
+      set (FA := unparse_item2 a' ++ fa) in *.
+      assert (SK' : skipn pa s = ws ++ 37%N :: text ++ post ++ FA).
+      { unfold FA. cbn [unparse_item2] in SK. rewrite <- !app_assoc in SK. cbn [app] in SK.
+        rewrite <- !app_assoc in SK. exact SK. }
+      split; [|intros q SQ; apply (peek_no_err q pa ws 37%N _ SQ WA space_37 eq_refl SK')].
+      set (q0 := pa + length ws).
+      set (pe := q0 + 1 + length text + length post).
+      assert (TP : forall pre pp, ws_ok pre = true -> skipn pp s = pre ++ 37%N :: text ++ post ++ FA ->
+                   impl_peek (sub_context aps [UEnEnvs false]) s pp
+                   = TokOk (mk TkComment text (pp + length pre) (pp + length pre + 1 + length text + length post) pre post)).
+      { intros pre pp WP SKp. rewrite (impl_peek_dispatch _ s pp pre 37%N _ WP SKp space_37).
+        apply (dispatch_comment cx _ (std_view_of cx _ SDe) s _ pre text post FA (skipn_shift _ _ _ _ SKp) NT Wp EW).
+        apply otest_hd_not. exact FO. }
+      pose proof (skipn_shift _ _ _ _ SK') as SK0. fold q0 in SK0.
+      assert (SKe : skipn pe s = unparse_item2 a' ++ fa).
+      { change (37%N :: text ++ post ++ FA) with ([37%N] ++ text ++ post ++ FA) in SK0.
+        apply skipn_shift in SK0. apply skipn_shift in SK0. apply skipn_shift in SK0.
+        cbn [length] in SK0. exact SK0. }
+      pose proof (TP [] q0 eq_refl SK0) as T2. cbn [length] in T2. rewrite Nat.add_0_r in T2. fold pe in T2.
+      pose proof (ok_expr_len true aps a' fa OKR) as LA.
+      cbn [expr_node2 item_ws2]. fold q0. fold pe. rewrite ilen_pre2.
+      replace (pa + (length ws + 1 + length text + length post + ilen2 a')) with (pe + ilen2 a') by (unfold pe, q0; lia).
+      destruct ws as [|w ws'].
+      + unfold q0 in *. cbn [length] in *. rewrite Nat.add_0_r in *.
+        replace (8 * (0 + 1 + length text + length post + ilen2 a') - 1)
+          with (S (8 * (0 + 1 + length text + length post + ilen2 a') - 2)) by lia.
+        rewrite (rule_texpr_comment s cx _ aps true true acc pa text pe post T2).
+        destruct (IHa true aps (acc ++ [Some (NComment pa pe (ps_mode aps) text post)]) pe fa SDa ltac:(lia) OKR SKe) as [G _].
+        apply (lift _ _ _ _ G); [discriminate|lia].
+      + pose proof (TP (w :: ws') pa WA SK') as T1. fold q0 in T1. fold pe in T1.
+        replace (8 * (length (w :: ws') + 1 + length text + length post + ilen2 a') - 1)
+          with (S (S (8 * (length (w :: ws') + 1 + length text + length post + ilen2 a') - 3))) by (cbn [length]; lia).
+        rewrite (rule_texpr_skipws s cx _ aps true true acc pa TkComment text _ w ws' post (or_intror (or_intror eq_refl)) T1).
+        fold q0. rewrite (rule_texpr_comment s cx _ aps true true _ q0 text pe post T2).
+        destruct (IHa true aps ((acc ++ [Some (mk_chars aps pa q0 (w :: ws'))]) ++ [Some (NComment q0 pe (ps_mode aps) text post)])
+                      pe fa SDa ltac:(lia) OKR SKe) as [G _].
+        apply (lift _ _ _ _ G); [discriminate|cbn [length]; lia].
+  Qed.
+
   Lemma arg_run2 n : SimN2 n -> forall ps spc a pa fa,
     Std cx ps -> isize2 a <= S n -> ok_arg2 cx ps spc a fa = true ->
     skipn pa s = unparse_item2 a ++ fa ->
@@ -632,112 +807,19 @@ Section Sim.
     assert (SDa : Std cx aps) by (apply std_adelta; exact SD).
     assert (ENa : f_en_envs (ps_f aps) = f_en_envs (ps_f ps)) by apply en_envs_adelta.
     destruct (a_kind spc) as [sp|o c opt sp|ch sp full|d] eqn:AK.
-    - (* a mandatory argument: a braced group or a single token *)
-      destruct a as [ws cs|ws b tr|ws name post margs| | | | |ws chars sargs| | | | |]; try discriminate.
-      + (* a single character *)
-        destruct cs as [|c [|? ?]]; try discriminate.
-        apply andb_true_iff in OKA. destruct OKA as [OKA IN].
-        apply andb_true_iff in OKA. destruct OKA as [AP WA].
-        destruct (inert_facts cx c IN) as (SPC & C92 & _).
-        cbn [unparse_item2] in SK. rewrite <- app_assoc in SK. cbn [app] in SK.
-        split; [|apply (peek_no_err ps pa ws c _ SD WA SPC C92 SK)].
-        pose proof (std_no_envs cx aps SDa) as SDe.
-        assert (TP : forall pre pp, ws_ok pre = true -> skipn pp s = pre ++ c :: fa ->
-                     impl_peek (sub_context aps [UEnEnvs false]) s pp
-                     = TokOk (mk TkChar [c] (pp + length pre) (S (pp + length pre)) pre [])).
-        { intros pre pp WP SKp. rewrite (impl_peek_dispatch _ s pp pre c fa WP SKp SPC).
-          apply (dispatch_char cx _ (std_view_of cx _ SDe)). exact IN. }
-        unfold arg_fuel. cbn [is_abs item_ws2]. unfold ilen2. cbn [unparse_item2]. rewrite app_length. cbn [length].
-        replace (pa + length ws + 1) with (S (pa + length ws)) by lia.
-        replace (pa + (length ws + 1)) with (S (pa + length ws)) by lia.
-        destruct ws as [|w ws'].
-        * pose proof (TP [] pa eq_refl SK) as T. cbn [length] in T |- *. rewrite Nat.add_0_r in T |- *.
-          pose proof (rule_texpr_char s cx 0 aps sp sp true [] pa c T) as G2.
-          pose proof (rule_tstdarg s cx _ aps sp pa _ _ G2) as G3.
-          rewrite (lift _ _ _ _ G3); [reflexivity|discriminate|lia].
-        * cbn [is_nil] in AP. rewrite orb_false_r in AP. subst sp.
-          pose proof (TP (w :: ws') pa WA SK) as T1.
-          pose proof (TP [] (pa + length (w :: ws')) eq_refl (skipn_shift _ _ _ _ SK)) as T2.
-          cbn [length] in T2. rewrite Nat.add_0_r in T2.
-          pose proof (rule_texpr_char_ws s cx 0 aps true true pa w ws' c T1 T2) as G2.
-          pose proof (rule_tstdarg s cx _ aps true pa _ _ G2) as G3.
-          rewrite (lift _ _ _ _ G3); [reflexivity|discriminate|cbn [length]; lia].
-      + (* a braced group *)
-        apply andb_true_iff in OKA. destruct OKA as [AP OKI].
-        rewrite ok_item_grp2 in OKI. apply andb_true_iff in OKI. destruct OKI as [OKI OKB].
-        apply andb_true_iff in OKI. destruct OKI as [WA W].
-        cbn [isize2] in SZ. fold (lsize2 b) in SZ.
-        assert (SK' : skipn pa s = ws ++ 123%N :: unparse_items2 b ++ tr ++ 125%N :: fa).
-        { unfold unparse_items2. cbn [unparse_item2] in SK. rewrite <- !app_assoc in SK. cbn [app] in SK.
-          rewrite <- !app_assoc in SK. exact SK. }
-        split; [|apply (peek_no_err ps pa ws 123%N _ SD WA space_123 eq_refl SK')].
-        set (q0 := pa + length ws).
-        pose proof (skipn_shift _ _ _ _ SK') as SK0. fold q0 in SK0.
-        pose proof (grp_run2 n IH aps q0 ws b tr fa SDa ltac:(lia) W OKB SK0) as G.
-        assert (TP : forall q pre pp, Std cx q -> ws_ok pre = true -> skipn pp s = pre ++ 123%N :: unparse_items2 b ++ tr ++ 125%N :: fa ->
-                     impl_peek q s pp = TokOk (mk TkBraceOpen [123%N] (pp + length pre) (S (pp + length pre)) pre [])).
-        { intros q pre pp SQ WP SKp. rewrite (impl_peek_dispatch q s pp pre 123%N _ WP SKp space_123).
-          apply (dispatch_open cx q (std_view_of cx q SQ)). }
-        cbn [item_ws2]. fold q0.
-        replace (pa + ilen2 (Grp2 ws b tr)) with (q0 + 1 + length (unparse_items2 b) + length tr + 1)
-          by (rewrite ilen_grp2; unfold q0; lia).
-        unfold arg_fuel. cbn [is_abs]. rewrite ilen_grp2.
-        destruct ws as [|w ws'].
-        * pose proof (TP _ [] q0 (std_no_envs cx aps SDa) eq_refl SK0) as T. cbn [length] in T. rewrite Nat.add_0_r in T.
-          pose proof (rule_texpr s cx _ aps sp sp true q0 _ _ T G) as G2.
-          pose proof (rule_tstdarg s cx _ aps sp q0 _ _ G2) as G3.
-          unfold q0 in *. cbn [length] in *. rewrite Nat.add_0_r in *.
-          rewrite (lift _ _ _ _ G3); [reflexivity|discriminate|lia].
-        * cbn [is_nil] in AP. rewrite orb_false_r in AP. subst sp.
-          pose proof (TP _ (w :: ws') pa (std_no_envs cx aps SDa) WA SK') as T1. fold q0 in T1.
-          pose proof (TP _ [] q0 (std_no_envs cx aps SDa) eq_refl SK0) as T2. cbn [length] in T2. rewrite Nat.add_0_r in T2.
-          pose proof (rule_texpr_ws s cx _ aps true true pa w ws' _ _ T1 T2 G) as G2.
-          pose proof (rule_tstdarg s cx _ aps true pa _ _ G2) as G3.
-          rewrite (lift _ _ _ _ G3); [reflexivity|discriminate|cbn [length]; lia].
-      + (* a control sequence *)
-        destruct margs; try discriminate.
-        apply andb_true_iff in OKA. destruct OKA as [OKA FO].
-        apply andb_true_iff in OKA. destruct OKA as [OKA GS].
-        apply andb_true_iff in OKA. destruct OKA as [OKA NM].
-        apply andb_true_iff in OKA. destruct OKA as [WA Wp].
-        destruct (get_macro_spec cx name) as [msp|] eqn:GM; [|discriminate].
-        destruct (name_ok_not_env name post NM) as [NB NE].
-        assert (SK' : skipn pa s = ws ++ 92%N :: name ++ post ++ fa).
-        { cbn [unparse_item2 flat_map] in SK. rewrite app_nil_r in SK. rewrite <- !app_assoc in SK. cbn [app] in SK.
-          rewrite <- !app_assoc in SK. exact SK. }
-        split.
-        * pose proof (mac_tok2 _ pa ws name post fa (std_no_envs cx aps SDa) WA Wp NM FO SK') as T.
-          pose proof (rule_texpr_macro s cx 0 aps sp sp true pa name _ _ ws post msp T NB NE GM) as G2.
-          pose proof (rule_tstdarg s cx _ aps sp pa _ _ G2) as G3.
-          assert (NL : 1 <= length name) by (destruct name; [discriminate|cbn; lia]).
-          unfold arg_fuel. cbn [is_abs item_ws2]. rewrite ilen_mac2. cbn [unparse_items2 flat_map length].
-          rewrite (lift _ _ _ _ G3); [|discriminate|lia].
-          cbn [parse_content]. f_equal. lia.
-        * intros e. rewrite (mac_tok2 ps pa ws name post fa SD WA Wp NM FO SK'). discriminate.
-      + (* a specials sequence *)
-        destruct chars as [|c cr]; try discriminate. destruct sargs; try discriminate.
-        apply andb_true_iff in OKA. destruct OKA as [OKA TS].
-        apply andb_true_iff in OKA. destruct OKA as [WA PS].
-        destruct (test_specials (map fst (cx_specials cx)) ((c :: cr) ++ fa) None) as [sc|] eqn:TS'; [|discriminate].
-        apply pe_str_eqb_eq in TS. subst sc.
-        destruct (plain_start_facts c PS) as (SPC & C92 & _).
-        assert (SK' : skipn pa s = ws ++ c :: cr ++ fa).
-        { cbn [unparse_item2 flat_map] in SK. rewrite app_nil_r in SK. rewrite <- !app_assoc in SK. exact SK. }
-        split; [|apply (peek_no_err ps pa ws c _ SD WA SPC C92 SK')].
-        pose proof (std_no_envs cx aps SDa) as SDe.
-        assert (T : impl_peek (sub_context aps [UEnEnvs false]) s pa
-                    = TokOk (mk TkSpecials (c :: cr) (pa + length ws) (pa + length ws + length (c :: cr)) ws [])).
-        { rewrite (impl_peek_dispatch _ s pa ws c (cr ++ fa) WA SK' SPC).
-          apply (dispatch_specials cx _ (std_view_of cx _ SDe) s _ ws c cr fa PS TS'). }
-        pose proof (rule_texpr_spc s cx 0 aps sp sp true pa (c :: cr) _ _ ws T) as G2.
-        pose proof (rule_tstdarg s cx _ aps sp pa _ _ G2) as G3.
-        unfold arg_fuel. cbn [is_abs item_ws2]. rewrite ilen_spc2. cbn [unparse_items2 flat_map].
-        rewrite (lift _ _ _ _ G3); [|discriminate|cbn [length]; lia].
-        cbn [parse_content]. f_equal. cbn [length]. lia.
+    - (* a mandatory argument: comments, then a braced group or a single token *)
+      assert (OKE : ok_expr2 cx sp aps a fa = true) by (destruct a; exact OKA).
+      destruct (expr_run2 n IH a sp aps [] pa fa SDa SZ OKE SK) as [G NE].
+      split; [|apply NE; exact SD].
+      pose proof (ok_expr_len sp aps a fa OKE) as LN.
+      pose proof (rule_tstdarg s cx _ aps sp pa _ _ G) as G3.
+      unfold arg_fuel. replace (is_abs a) with false by (destruct a; try reflexivity; discriminate OKE).
+      replace (8 * ilen2 a) with (S (8 * ilen2 a - 1)) by lia.
+      rewrite G3. cbn [parse_content]. try reflexivity; destruct a; reflexivity.
     - (* a delimited argument *)
       destruct o as [|oc' [|? ?]]; try (destruct a; discriminate); try (destruct a; destruct opt; discriminate).
       destruct c as [|cc' [|? ?]]; try (destruct a; discriminate); try (destruct a; destruct opt; discriminate).
-      destruct a as [| | | | | | | | | |ws oc cc b tr| |]; try discriminate; try (destruct opt; discriminate).
+      destruct a as [| | | | | | | | | |ws oc cc b tr| | |]; try discriminate; try (destruct opt; discriminate).
       + (* written *)
         assert (OKA' : N.eqb oc oc' && N.eqb cc cc' && delim_ok oc cc && (sp || is_nil ws) && ws_ok ws && ws_ok tr
                        && ok_items2 cx aps [oc; cc] b (tr ++ cc :: fa) = true) by (destruct opt; exact OKA).
@@ -777,7 +859,7 @@ Section Sim.
         * rewrite ENa in AB. apply (absent_no_err pa oc'). apply (peek_absent cx ps s pa fa oc' SD SK SPO AB).
     - (* a marker character *)
       destruct ch as [|ch [|? ?]]; try (destruct a; discriminate).
-      destruct a as [ws cs| | | | | | | | | | | |]; try discriminate.
+      destruct a as [ws cs| | | | | | | | | | | | |]; try discriminate.
       + (* written *)
         destruct cs as [|c [|? ?]]; try discriminate.
         apply andb_true_iff in OKA. destruct OKA as [OKA WA].
@@ -806,7 +888,7 @@ Section Sim.
           unfold ilen2. cbn [unparse_item2 length]. rewrite Nat.add_0_r. reflexivity.
         * rewrite ENa in AB. apply (absent_no_err pa ch). apply (peek_absent cx ps s pa fa ch SD SK SPC AB).
     - (* a verbatim argument *)
-      destruct a as [| | | | | | | | | | | |ws od cd text]; try discriminate.
+      destruct a as [| | | | | | | | | | | |ws od cd text|]; try discriminate.
       apply andb_true_iff in OKA. destruct OKA as [OKA SC].
       apply andb_true_iff in OKA. destruct OKA as [OKA VD].
       apply andb_true_iff in OKA. destruct OKA as [OKA O92]. apply negb_true_iff in O92.
@@ -843,16 +925,17 @@ Section Sim.
   Lemma ok_arg_len ps spc a fa : ok_arg2 cx ps spc a fa = true -> is_abs a = false -> 1 <= ilen2 a.
   Proof.
     unfold ok_arg2. intros H NA.
-    destruct a as [ws cs|ws b tr|ws name post margs| | | | |ws chars sargs| | |ws oc cc b tr| |vw od cd vt]; try discriminate NA;
-      try (destruct (a_kind spc) as [?|[|? [|? ?]] [|? [|? ?]] [|] ?|[|? [|? ?]] ? ?|?]; discriminate H).
-    - destruct (a_kind spc) as [?|[|? [|? ?]] [|? [|? ?]] [|] ?|[|? [|? ?]] ? ?|?]; try discriminate H;
-        (destruct cs as [|c [|? ?]]; try discriminate H; unfold ilen2; cbn [unparse_item2]; rewrite app_length; cbn; lia).
-    - rewrite ilen_grp2. lia.
-    - rewrite ilen_mac2. lia.
-    - destruct (a_kind spc) as [?|[|? [|? ?]] [|? [|? ?]] [|] ?|[|? [|? ?]] ? ?|?]; try discriminate H.
-      destruct chars; [discriminate H|]. rewrite ilen_spc2. cbn [length]. lia.
-    - rewrite ilen_brk2. lia.
-    - unfold ilen2. cbn [unparse_item2]. rewrite app_length. cbn [length]. lia.
+    destruct (a_kind spc) as [sp|o c opt sp|ch sp full|d].
+    - apply (ok_expr_len sp (apply_adelta ps (a_delta spc)) a fa). destruct a; exact H.
+    - destruct a as [| | | | | | | | | |ws oc cc b tr| | |]; try discriminate NA;
+        try (destruct o as [|? [|? ?]]; destruct c as [|? [|? ?]]; destruct opt; discriminate H).
+      rewrite ilen_brk2. lia.
+    - destruct a as [ws cs| | | | | | | | | | | | |]; try discriminate NA;
+        try (destruct ch as [|? [|? ?]]; discriminate H).
+      destruct ch as [|? [|? ?]]; try discriminate H.
+      destruct cs as [|c [|? ?]]; try discriminate H. unfold ilen2. cbn [unparse_item2]. rewrite app_length. cbn. lia.
+    - destruct a as [| | | | | | | | | | | |vw od cd vt|]; try discriminate NA; try discriminate H.
+      unfold ilen2. cbn [unparse_item2]. rewrite app_length. cbn [length]. lia.
   Qed.
 
   Lemma lift_pc n n' t v p : parse_content false (R n t) = Ok v p -> n <= n' -> parse_content false (R n' t) = Ok v p.
@@ -903,7 +986,7 @@ Section Sim.
     intros IH i ex cps ps o st pos fol k r SZ F OK NR OKI SK H.
     pose proof F as [SD _]. pose proof (std_view_of cx ps SD) as V.
     destruct i as [ws cs|ws b tr|ws name post args|ws mk b tr|ws text post|ws mid|ws bws name args b tr ews
-                   |ws chars args|ws name post dc text|ws bws name oarg text|ws oc cc b tr| |vw od cd vt]; cycle 4.
+                   |ws chars args|ws name post dc text|ws bws name oarg text|ws oc cc b tr| |vw od cd vt|pw ptx ppost pa']; cycle 4.
     - (* comment *)
       cbn [ok_item2] in OKI. apply andb_true_iff in OKI. destruct OKI as [OKI PO].
       apply andb_true_iff in OKI. destruct OKI as [W NT]. apply negb_true_iff in NT.
@@ -1173,10 +1256,10 @@ Section Sim.
                       end
                  else @nil str = [] /\ fst on = [] /\ pt = pa)).
       { destruct oarg as [|a [|a2 oarg']];
-          [| |destruct a as [| | | | | | | | | |[|? ?] ? ? ? ?| |]; discriminate OO].
+          [| |destruct a as [| | | | | | | | | |[|? ?] ? ? ? ?| | |]; discriminate OO].
         - destruct optarg; [discriminate|]. unfold on, pt. cbn [unparse_items2 flat_map length fst snd].
           repeat split; lia.
-        - destruct a as [| | | | | | | | | |bw oc cc b tr| |]; try discriminate OO.
+        - destruct a as [| | | | | | | | | |bw oc cc b tr| | |]; try discriminate OO.
           + (* written *)
             destruct bw; [|discriminate].
             apply andb_true_iff in OO. destruct OO as [OO OKB].
@@ -1267,6 +1350,7 @@ Section Sim.
     - (* a delimited argument is not an item *) discriminate.
     - (* an absent argument is not an item *) discriminate.
     - (* a verbatim argument is not an item *) discriminate.
+    - (* a comment in front of an argument is not an item *) discriminate.
     - (* text *)
       cbn [ok_item2] in OKI. apply andb_true_iff in OKI. destruct OKI as [OKI IN].
       apply andb_true_iff in OKI. destruct OKI as [W NE]. destruct cs as [|c cs]; [discriminate|].
